@@ -138,7 +138,9 @@ static void run_case (char *id, char *mode, char *engine, char *target, char *mi
     puthex (stdout, c05_img, sizeof (c05_img));
     printf (" outs=");
     puthex (stdout, c05_outs, 256);
-    printf (" seen=-\n");
+    printf (" seen=");
+    puthex (stdout, c05_seen, 2304);
+    printf ("\n");
     return;
   }
   size_t n = strlen (mirhex) / 2;
@@ -157,7 +159,7 @@ static void run_case (char *id, char *mode, char *engine, char *target, char *mi
     printf ("%s error no-such-target:%s\n", id, target);
     return;
   }
-  MIR_load_external (ctx, "probe", tgt != NULL ? tgt : (void *) c05_probe);
+  MIR_load_external (ctx, "probe", tgt != NULL && !c06 ? tgt : (void *) c05_probe);
   MIR_load_external (ctx, "vals", c05_vals);
   MIR_load_external (ctx, "outs", c05_outs);
   MIR_load_external (ctx, "helper", c06_helper);
@@ -220,7 +222,7 @@ static void run_case (char *id, char *mode, char *engine, char *target, char *mi
     printf (" outs=");
     puthex (stdout, c05_outs, 2048);
     printf (" seen=");
-    puthex (stdout, c05_seen, 1024);
+    puthex (stdout, c05_seen, 2304);
     printf ("\n");
   } else {
     int reps = 1;
@@ -246,6 +248,8 @@ static void run_case (char *id, char *mode, char *engine, char *target, char *mi
     puthex (stdout, c05_outs, 2048);
     printf (" pimg=");
     puthex (stdout, c05_img, 256);
+    printf (" seen=");
+    puthex (stdout, c05_seen, 2304);
     if (dump_f != NULL) { /* the generator's own listing of the function after prologue/epilogue insertion */
       fflush (dump_f);
       const char *key = "MIR after forming prolog/epilog";
